@@ -25,8 +25,8 @@ TRUSTED = [
 ]
 ASSUMPTIONS = [
     'the file is not modified while compute_file_checksum / last_bytes read it; no concurrent change of the directory tree',
-    'os.write on the fresh descriptor writes the whole buffer (Linux: up to 0x7ffff000 bytes per call; write_to_tempfile ignores the '
-    'return value, so longer contents are outside the theorem — hypothesis zlen content <= max_rw_count)',
+    'os.write of a non-empty buffer transfers between 1 byte and the whole buffer and appends that prefix (progress clause of fs_contract; '
+    'ENOSPC/EINTR-style failures of write are outside the success theorem, they propagate as OSError)',
     'time.sleep(0) (cooperative yield) has no effect on results; closing of the file object by `with` is not observed',
     'paths sent to the model are clean relative paths (no empty, "." or ".." components, no symlinks, no permission faults); the '
     'theorems themselves do not depend on the concrete path model',
@@ -35,7 +35,7 @@ RULE = ('checksum: chunk sizes {1,2,7,64,4096,65536,>size,default,-1} x sizes k*
         'hashlib.algorithms_available over the run) + missing file/dir/bad algorithm/chunk 0,-2; last_bytes: sizes {0,1,2,10,4095..4097,70000} x '
         'n in {0,1,size-1,size,size+1,2^40,2^63-1,2^63,2^63+1,-1,-3,random}; ensure_tree/delete_if_exists/write_to_tempfile on real trees: '
         'missing depth 0..4 below existing depth 0..2, existing directory, file at the path, file as an ancestor, random worlds, each run twice '
-        '(idempotence); fault injection: every errno of errno.errorcode + {0,133,200,9999} + non-OSError x target {dir,file,missing}; '
+        '(idempotence); short-write injection into os.write (at most 1, 3, 4096 bytes per call) x sizes around the multiples of the limit; fault injection: every errno of errno.errorcode + {0,133,200,9999} + non-OSError x target {dir,file,missing}; '
         'distinct = distinct case JSON; trivial = none')
 
 RUN_ROOT = None
@@ -240,11 +240,19 @@ def gen_cases(rng, tier):
     for i, (w, p) in enumerate(tree_scenarios(rng, tier)):
         size = rng.choice([0, 1, 2, 10, 300]) if i % 17 else 100000
         yield {'op': 'write_to_tempfile', 'world': w, 'path': p, 'content': {'size': size, 'seed': rng.randrange(50)},
-               'suffix': rng.choice(sufs), 'prefix': rng.choice(pres), 'defaults': rng.random() < 0.2}
+               'suffix': rng.choice(sufs), 'prefix': rng.choice(pres), 'defaults': rng.random() < 0.2,
+               # the model's write loop is quadratic in the number of writes: tiny limits only with small contents
+               'wlimit': rng.choice([None, None, 1, 3, 4096] if size <= 300 else [None, 4096])}
     for i in range(12 if tier == 'quick' else 300):
         w = rand_world(rng)
         yield {'op': 'write_to_tempfile', 'world': w, 'path': None, 'content': {'size': rng.choice([0, 1, 7, 5000]), 'seed': i},
                'suffix': rng.choice(sufs), 'prefix': rng.choice(pres), 'defaults': i % 3 == 0}
+    # short writes: os.write transfers at most `wlimit` bytes per call (sizes around the limit and its multiples)
+    for lim in (1, 3, 4096):
+        for size in sorted({0, 1, 2, lim - 1, lim, lim + 1, 2 * lim - 1, 2 * lim, 2 * lim + 1, 3 * lim + 2, 7, 1500 if lim < 4096 else 20000} - {-1}):
+            yield {'op': 'write_to_tempfile', 'world': [['D', 'a', None]], 'path': rng.choice(['a', 'a/n1', None]),
+                   'content': {'size': size, 'seed': rng.randrange(50)}, 'suffix': rng.choice(sufs), 'prefix': rng.choice(pres),
+                   'defaults': False, 'wlimit': lim}
     yield from checksum_cases(rng, tier)
     yield from last_bytes_cases(rng, tier)
 
@@ -283,7 +291,7 @@ def impl(c):
     if _timeouts.get(c['op'], 0) >= 3: return 'TIMEOUT'          # do not wait again and again for the same helper
     def on_alarm(sig, frm): raise _Timeout()
     old = signal.signal(signal.SIGALRM, on_alarm)
-    signal.setitimer(signal.ITIMER_REAL, 300.0 if c['op'] == 'write_big' else 10.0)
+    signal.setitimer(signal.ITIMER_REAL, 10.0)
     try:
         return _impl(c)
     except _Timeout:
@@ -343,23 +351,18 @@ def _impl(c):
             if not c.get('defaults'): kw['suffix'] = c['suffix']; kw['prefix'] = c['prefix']
             saved = tempfile.tempdir
             tempfile.tempdir = os.path.join(base, 'tmp')
+            real_write = os.write
+            lim = c.get('wlimit')
+            if lim:
+                # short writes, as POSIX allows (Linux does it above 0x7ffff000 bytes): at most `lim` bytes per call
+                os.write = lambda fd, data: real_write(fd, bytes(memoryview(data)[:lim]))
             n0 = nfds()
             try:
                 r = outcome(lambda: fu.write_to_tempfile(content, **kw), lambda p: os.path.relpath(p, base) if p.startswith(base + '/') else 'OUTSIDE:' + p)
             finally:
+                os.write = real_write
                 tempfile.tempdir = saved
             return '%s %s' % (r, fmt_world(dump_world(base), nfds() - n0))
-        if op == 'write_big':
-            # content larger than one write(2) transfers; only the sizes are reported (zeros, no dump)
-            os.makedirs(os.path.join(base, 'd'))
-            data = bytes(c['size'])
-            try:
-                p = fu.write_to_tempfile(data, path=os.path.join(base, 'd'))
-                return 'OK:stored=%d of %d' % (os.path.getsize(p), len(data))
-            except Exception as e:
-                return canon_exc(e)
-            finally:
-                del data
         if op == 'checksum':
             mk_world(base, _file_world(c))
             p = _target_path(base, c)
@@ -412,11 +415,12 @@ def encode(c):
         return [op, str(code)] + (['1' if c['target'] == 'dir' else '0'] if op == 'ensure_tree_inj' else [])
     if op == 'write_to_tempfile':
         if c['path'] is not None and not _clean(c['path']): return None
+        lim = str(c.get('wlimit') or 0)
         if c.get('defaults'):
-            return [op + '_defaults', content_of(c['content']), '1' if c['path'] is not None else '0', c['path'] or ''] + _enc_world(world_entries(c))
+            return [op + '_defaults', content_of(c['content']), '1' if c['path'] is not None else '0', c['path'] or '', lim] + _enc_world(world_entries(c))
         suf, pre = c['suffix'], c['prefix']
         if '/' in suf or '/' in pre: return None
-        return [op, content_of(c['content']), '1' if c['path'] is not None else '0', c['path'] or '', suf, pre] + _enc_world(world_entries(c))
+        return [op, content_of(c['content']), '1' if c['path'] is not None else '0', c['path'] or '', suf, pre, lim] + _enc_world(world_entries(c))
     if op in ('checksum', 'last_bytes'):
         ents = world_entries({'world': _file_world(c)})
         p = {'file': 'f', 'missing': 'nope', 'dir': 'tmp', 'under_file': 'f/x'}[c.get('target', 'file')]
@@ -556,8 +560,6 @@ def oracle(c, io):
         else:
             if after != before and op == 'delete_if_exists': return 'failed delete_if_exists(%r) changed the tree' % p
         return None
-    if op == 'write_big':
-        return None if io == 'OK:stored=%d of %d' % (c['size'], c['size']) else 'write_to_tempfile of %d bytes: %s' % (c['size'], io)
     if op == 'write_to_tempfile':
         head, after, rest = _parse_world(io)
         before = {p: (k, content_of(cd).hex() if k == 'F' else '') for p, (k, cd) in world_entries(c).items()}
@@ -589,18 +591,11 @@ def oracle(c, io):
         return None
     return None
 
-MAX_RW_COUNT = 0x7ffff000
-def zone(c):
-    """known finding W1: the content does not fit one write(2) (decidable on the input)"""
-    if c.get('op') == 'write_big' and c['size'] > MAX_RW_COUNT: return 'W1'
-    if c.get('op') == 'write_to_tempfile' and c['content'].get('size', 0) > MAX_RW_COUNT: return 'W1'
-    return None
-
 def classify(c, io):
     op = c['op']
     if op == 'checksum': return 'checksum:' + ('exn' if not io.startswith('OK') else 'default' if c['chunk'] is None else 'chunk')
     if op == 'last_bytes': return 'last_bytes:' + ('exn' if not io.startswith('OK') else 'fallback' if c['num'] > c['content']['size'] else 'seek')
-    return op + ':' + io.split(':', 1)[0].split(' ')[0]
+    return op + (':short' if c.get('wlimit') else '') + ':' + io.split(':', 1)[0].split(' ')[0]
 
 def search(rng, budget):
     for _ in range(budget):
@@ -689,7 +684,11 @@ def extra_checks(rng, tier):
                 elif os.path.getsize(name) != 0: msg = 'mkstemp file not empty'
                 data = bytes(rng.randrange(256) for _ in range(rng.choice([0, 1, 100, 100000])))
                 k = os.write(fd, data)
-                if k != len(data): msg = 'os.write wrote %d of %d' % (k, len(data))
+                if data and not (1 <= k <= len(data)): msg = 'os.write progress: %d of %d' % (k, len(data))
+                while k < len(data):            # a short write is allowed; the rest is appended by the next calls
+                    j = os.write(fd, data[k:])
+                    if not (1 <= j <= len(data) - k): msg = 'os.write progress: %d of %d' % (j, len(data) - k); break
+                    k += j
                 os.close(fd)
                 if open(name, 'rb').read() != data: msg = 'file content after write/close differs'
                 fd2, name2 = tempfile.mkstemp(suffix='.s', dir=p, prefix='pp'); os.close(fd2)
@@ -713,8 +712,8 @@ def extra_checks(rng, tier):
 
 LEVEL_TEXT = ('Theorems for every content, every chunk size >= 1 (and -1), every n with 0 <= n <= 2^63, every errno, every runtime satisfying the stated '
               'contracts: chunking independence of compute_file_checksum (by induction on the unread part), last_bytes = final min(n,size) bytes + count before them, '
-              'errno filters of ensure_tree / delete_if_exists (total case analysis) and their idempotence, write_to_tempfile specification for contents that fit one '
-              'write(2); the unbounded write_to_tempfile statement is refuted (known finding W1: os.write return value ignored). The five function bodies are '
+              'errno filters of ensure_tree / delete_if_exists (total case analysis) and their idempotence, write_to_tempfile specification for every content under '
+              'arbitrarily short writes (write loop, fuel excluded by the progress contract; repaired defect W1). The five function bodies are '
               'translated statement by statement from the source on every run and proved equal to the model; defaults and errno numbers are regenerated.')
 LEVEL_NOTE = ('Trusted: Coq kernel; translator; the runtime contracts (hash streaming homomorphism, file-object model, makedirs/unlink/mkstemp/write/close clauses) — '
               'tested on the real runtime on every run; the concrete file-system model is only a witness/correspondence vehicle. Closed under the global context.')
